@@ -54,6 +54,10 @@ def job(workload, bin="race", arg="", procs=0, timeout=None, parts=1):
 def plan(pid, tier):
     T = tier == "thorough"
     P = {
+        "C10": [job("C10", "ptr", timeout=1500, parts=6)],
+        "C11": [job("C11", "ptr", timeout=1500, parts=8)],
+        "C12": [job("C12", "race", timeout=1500, parts=6), job("C12", "ptr", arg="bulk", timeout=1500, parts=6)],
+        "C16": [job("C16", "ptr", timeout=1500, parts=6)],
         "C18": [job("C18", "ptr", timeout=900)],
         "C19": [job("C19", "ptr", timeout=900, parts=4 if T else 2)],
         "C20": [job("C20", "ptr", timeout=600)],
@@ -289,7 +293,7 @@ def main():
     # race reports are violations for the properties whose statement is about races
     if pid in ("C08", "C12"):
         for k, v in race_classes.items():
-            if MOD in v:
+            if MOD in v or pid == "C12":
                 violations.append(dict(signature="%s/race/%s" % (pid, k), detail="data race reported by the Go race detector", case=dict(report=v), child="race-log", cmd=[]))
     obs["race_reports_total"] = total_races
     obs["race_report_classes"] = len(race_classes)
